@@ -43,6 +43,9 @@ CLAIMED = {
     'C14': ('CBMC/DFCC function + loop contracts with Eigen coefficient-wise statements lifted to a scalar kernel at a ghost position, on code extracted from /repo each run; SMT lemmas over the reals',
             'proof for the scaling statistics: constructor, ::update, ::done (neutral scaling for N<=1 or disabled columns; div = 1/mul with the same denominator; multipliers >= eps), scale/upscale/make_scaling use the same (offset, factor) per mode with NaN->0 after scaling, and the affine up-scaling of (W, b); lemmas over R: upscale(scale(v)) = v and W\'x+b\' = upscale(W scale(x) + b) for all dimensions; rounding-error magnitudes not decided',
             'Eigen coefficient-wise operator semantics (engine/eigencw.py closed list), sqrt/min/max facts, one IEEE subtraction fact assumed; double treated as real in the lemmas', '7/C14'),
+    'C15': ('CBMC/DFCC function + loop contracts over a byte-stream model with an uninterpreted content hash, plus SMT lemmas over Int, on code extracted from /repo each run',
+            'proof that the tensor reader never reads at or beyond the end of the stream, accepts only after version, rank, scalar size, every dimension (non-negative, byte count not overflowing) and the content hash were checked, consumes exactly header + payload bytes (every strict prefix of an accepted stream fails), that the writer emits the same field sequence and refuses dimensions that do not fit the header; core stream readers/writers propagate failure; configurable and parameter readers throw on short or newer-version streams; bit-identical predictions of re-read models and collision-freeness of the hash are not decided',
+            'istream::read / ostream::write semantics (sticky failure, no partial success), tensor resize, std::string/vector resize assumed; content hash uninterpreted', '7/C15'),
     'C16': ('weakest-precondition VCs over mathematical integers (z3/cvc5), one contract per template recursion level, overflow as explicit obligations',
             'proof that index/index0/size/dims0 and every level of get_index/get_index0/product/get_dims0 (ranks 1..5) equal the row-major spec functions without intermediate overflow, plus bijection/monotonicity lemmas on the spec functions',
             'tensor invariant (extents >= 0, suffix products <= 2^62) is a stated precondition; std::get/std::array semantics assumed', '7/C16'),
